@@ -134,9 +134,10 @@ func (p Proxy) ServeHTTP(w http.ResponseWriter, r *http.Request) (int, error) {
 	outreq, cancel := createUpstreamRequest(w, r)
 	defer cancel()
 
-	// If we have more than one upstream host defined and if retrying is enabled
-	// by setting try_duration to a non-zero value, casket will try to
-	// retry the request at a different host if the first one failed.
+	// If retrying is enabled by setting try_duration to a non-zero value,
+	// casket will try the request again if the first attempt failed: at a
+	// different host, or at the same host once its fail_timeout has passed
+	// (the only possibility when a single upstream host is defined).
 	//
 	// This requires us to possibly rewind and replay the request body though,
 	// which in turn requires us to buffer the request body first.
@@ -144,7 +145,7 @@ func (p Proxy) ServeHTTP(w http.ResponseWriter, r *http.Request) (int, error) {
 	// An unbuffered request is usually preferrable, because it reduces latency
 	// as well as memory usage. Furthermore it enables different kinds of
 	// HTTP streaming applications like gRPC for instance.
-	requiresBuffering := upstream.GetHostCount() > 1 && upstream.GetTryDuration() != 0
+	requiresBuffering := upstream.GetTryDuration() != 0
 
 	if requiresBuffering {
 		body, err := newBufferedBody(outreq.Body)
